@@ -797,3 +797,7 @@ impl fmt::Display for Formatted {
 		Ok(())
 	}
 }
+
+#[cfg(feature = "verif-hooks")]
+#[path = "complex_verif_hooks.rs"]
+pub(crate) mod verif_hooks;
